@@ -193,9 +193,10 @@ func (c *converter) syncDefaultCrt() {
 func (c *converter) syncDefaultBackend() {
 	if c.options.DefaultBackend != "" {
 		pathLink := hatypes.CreateHostPathLink(hatypes.DefaultHost, "/", hatypes.MatchBegin)
+		// track also when the service cannot be read, so that it is followed when it is created later
+		c.tracker.TrackNames(c.defaultBackSource.Type, c.defaultBackSource.FullName(), convtypes.ResourceHAHostname, hatypes.DefaultHost)
 		if backend, err := c.addBackend(&c.defaultBackSource, pathLink, c.options.DefaultBackend, "", map[string]string{}); err == nil {
 			c.haproxy.Backends().DefaultBackend = backend
-			c.tracker.TrackNames(c.defaultBackSource.Type, c.defaultBackSource.FullName(), convtypes.ResourceHAHostname, hatypes.DefaultHost)
 		} else {
 			c.logger.Error("error reading default service: %v", err)
 		}
